@@ -966,4 +966,216 @@ theorem mergeRun_succ (f : Int → MergeArg → Option Int) (inputs : List (AMap
   mealyRun_getElem_succ (fun old (lr : AMap Int × AMap Int) => mergeStep f old lr.1 lr.2)
     (fun lr res => some (lr.1, lr.2, res.1)) none inputs n h
 
+/-! ## work proportional to the change (C17) -/
+
+/-- the keys `incr_filter_mapi` calls the user function for: exactly the keys bound in the new input
+whose binding is not the one the old input had -/
+theorem fmCalls_mem (a m : AMap Int) (ha : a.Sorted) (hm : m.Sorted) (c : Call) :
+    c ∈ ((symmetricDiff a m).filter isNew).map (fun e => (Role.fn, e.1)) ↔
+      c.1 = Role.fn ∧ ∃ v, m.lookup c.2 = some v ∧ a.lookup c.2 ≠ some v := by
+  rcases c with ⟨role, k⟩
+  simp only [List.mem_map, List.mem_filter, Prod.mk.injEq]
+  constructor
+  · rintro ⟨⟨k', e⟩, ⟨he, hnew⟩, rfl, rfl⟩
+    refine ⟨rfl, ?_⟩
+    rcases (symmetricDiff_mem a m ha hm k' e).mp he with ⟨x, h1, h2, rfl⟩ | ⟨y, h1, h2, rfl⟩ |
+        ⟨x, y, h1, h2, h3, rfl⟩
+    · simp [isNew] at hnew
+    · exact ⟨y, h2, by simp [h1]⟩
+    · exact ⟨y, h2, by simp [h1, h3]⟩
+  · rintro ⟨rfl, v, h1, h2⟩
+    rcases hA : a.lookup k with _ | x
+    · exact ⟨(k, .right v), ⟨(symmetricDiff_mem a m ha hm k _).mpr (.inr (.inl ⟨v, hA, h1, rfl⟩)), rfl⟩,
+        rfl, rfl⟩
+    · have hxv : x ≠ v := fun h => h2 (by rw [hA, h])
+      exact ⟨(k, .unequal x v),
+        ⟨(symmetricDiff_mem a m ha hm k _).mpr (.inr (.inr ⟨x, v, hA, h1, hxv, rfl⟩)), rfl⟩, rfl, rfl⟩
+
+/-- the keys of the calls are strictly ascending: at most one call per key -/
+theorem fmCalls_ascending (a m : AMap Int) (ha : a.Sorted) (hm : m.Sorted) :
+    List.Pairwise (· < ·)
+      ((((symmetricDiff a m).filter isNew).map (fun e => (Role.fn, e.1))).map (·.2)) := by
+  rw [List.map_map]
+  exact List.Pairwise.sublist (List.filter_sublist.map _) (symmetricDiff_ascending a m ha hm)
+
+theorem fmCalls_length_le (a m : AMap Int) :
+    (((symmetricDiff a m).filter isNew).map (fun e => (Role.fn, e.1))).length ≤
+      (symmetricDiff a m).length := by
+  rw [List.length_map]; exact List.length_filter_le _ _
+
+/-- the keys of the calls of the unordered fold are strictly ascending -/
+theorem diffCall_snd (e : Int × DiffElement Int) : (diffCall e).2 = e.1 := by
+  rcases e with ⟨k, _ | _ | _⟩ <;> rfl
+
+theorem ufCalls_ascending (a m : AMap Int) (ha : a.Sorted) (hm : m.Sorted) :
+    List.Pairwise (· < ·) (((symmetricDiff a m).map diffCall).map (·.2)) := by
+  rw [List.map_map]
+  have : ((fun x : Call => x.2) ∘ diffCall) = fun e => e.1 := funext diffCall_snd
+  rw [this]
+  exact symmetricDiff_ascending a m ha hm
+
+/-! ### `incr_merge` -/
+
+theorem mergeDiffs_length_le {β γ : Type} (l : List (Int × β)) (r : List (Int × γ)) :
+    (mergeDiffs l r).length ≤ l.length + r.length := by
+  rw [mergeDiffs_eq_ref]
+  fun_induction refMerge l r with
+  | case1 r => simp
+  | case2 l h => simp
+  | case3 x l y r h ih => simp at ih ⊢; omega
+  | case4 x l y r h1 h2 ih => simp at ih ⊢; omega
+  | case5 x l y r h1 h2 ih => simp at ih ⊢; omega
+
+/-- the closure of `incr_merge` in terms of point updates; needs only sorted inputs -/
+theorem mergeStep_alter (f : Int → MergeArg → Option Int)
+    (old : Option (AMap Int × AMap Int × AMap Int))
+    (hoL : (mergeOld old).1.Sorted) (hoR : (mergeOld old).2.1.Sorted)
+    (newL newR : AMap Int) (hnL : newL.Sorted) (hnR : newR.Sorted) :
+    mergeStep f old newL newR =
+      (alterFold MergeElement.key (mergeOp f newL newR) (mergeOld old).2.2
+        (mergeDiffs (symmetricDiff (mergeOld old).1 newL) (symmetricDiff (mergeOld old).2.1 newR)),
+       !(mergeDiffs (symmetricDiff (mergeOld old).1 newL) (symmetricDiff (mergeOld old).2.1 newR)).isEmpty,
+       ((mergeDiffs (symmetricDiff (mergeOld old).1 newL) (symmetricDiff (mergeOld old).2.1 newR)).filter
+          (hasData newL newR)).map fun e => (Role.merge, e.key)) := by
+  rw [mergeStep_eq, foldl_mergeFold f _ _ newL newR hoL hoR hnL hnR]
+  simp
+
+/-- every key in the merged stream differs between the old and new left input, or between the old
+and new right input -/
+theorem stream_key_differs (oldL oldR newL newR : AMap Int) (hoL : oldL.Sorted) (hoR : oldR.Sorted)
+    (hnL : newL.Sorted) (hnR : newR.Sorted) (e : MStream)
+    (he : e ∈ mergeDiffs (symmetricDiff oldL newL) (symmetricDiff oldR newR)) :
+    oldL.lookup e.key ≠ newL.lookup e.key ∨ oldR.lookup e.key ≠ newR.lookup e.key := by
+  rcases stream_key_mem _ _ (symmetricDiff_ascending oldL newL hoL hnL)
+      (symmetricDiff_ascending oldR newR hoR hnR) e he with ⟨⟨k, d⟩, hx, hk⟩ | ⟨⟨k, d⟩, hy, hk⟩
+  · simp only at hk; subst hk
+    exact .inl (diff_entry oldL newL hoL hnL _ d hx).2.2
+  · simp only at hk; subst hk
+    exact .inr (diff_entry oldR newR hoR hnR _ d hy).2.2
+
+theorem mergeCalls_ascending {β γ : Type} (ld : List (Int × β)) (rd : List (Int × γ))
+    (hl : List.Pairwise (· < ·) (ld.map (·.1))) (hr : List.Pairwise (· < ·) (rd.map (·.1)))
+    (p : MergeElement (Int × β) (Int × γ) → Bool) :
+    List.Pairwise (· < ·)
+      ((((mergeDiffs ld rd).filter p).map fun e => (Role.merge, e.key)).map (·.2)) := by
+  rw [List.map_map]
+  exact List.Pairwise.sublist (List.filter_sublist.map _) (mergeDiffs_ascending ld rd hl hr)
+
+/-- equal inputs: the stream is empty, nothing is called, output and flag say "unchanged" -/
+theorem mergeStep_same (f : Int → MergeArg → Option Int) (l r o : AMap Int) (hl : l.Sorted)
+    (hr : r.Sorted) : mergeStep f (some (l, r, o)) l r = (o, false, []) := by
+  rw [mergeStep_eq]
+  simp only [mergeOld, Option.getD_some, symmetricDiff_self l hl, symmetricDiff_self r hr]
+  rfl
+
+/-- on a fresh node every key of either input is in the stream, once, and has data -/
+theorem mergeInitial_stream_key (l r : AMap Int) (hl : l.Sorted) (hr : r.Sorted) (k : Int) :
+    k ∈ (mergeDiffs (symmetricDiff [] l) (symmetricDiff [] r)).map MergeElement.key ↔
+      k ∈ l.keys ∨ k ∈ r.keys := by
+  have hla := symmetricDiff_ascending [] l sorted_nil hl
+  have hra := symmetricDiff_ascending [] r sorted_nil hr
+  constructor
+  · intro hk
+    obtain ⟨e, he, rfl⟩ := List.mem_map.mp hk
+    rcases stream_key_mem _ _ hla hra e he with ⟨⟨k, d⟩, hx, hk⟩ | ⟨⟨k, d⟩, hy, hk⟩
+    · simp only at hk; subst hk
+      obtain ⟨h1, h2, h3⟩ := diff_entry [] l sorted_nil hl _ d hx
+      left
+      apply (lookup_isSome_iff_mem_keys l _).mp
+      rcases h : l.lookup e.key with _ | v
+      · rw [h] at h3; simp at h3
+      · rfl
+    · simp only at hk; subst hk
+      obtain ⟨h1, h2, h3⟩ := diff_entry [] r sorted_nil hr _ d hy
+      right
+      apply (lookup_isSome_iff_mem_keys r _).mp
+      rcases h : r.lookup e.key with _ | v
+      · rw [h] at h3; simp at h3
+      · rfl
+  · rintro (hk | hk)
+    · have h := (lookup_isSome_iff_mem_keys l k).mpr hk
+      rcases hv : l.lookup k with _ | v
+      · rw [hv] at h; simp at h
+      · have hx : (k, DiffElement.right v) ∈ symmetricDiff [] l :=
+          (symmetricDiff_mem [] l sorted_nil hl k _).mpr (.inr (.inl ⟨v, rfl, hv, rfl⟩))
+        obtain ⟨e, he, hek⟩ := stream_covers_left _ _ hla hra _ hx
+        exact List.mem_map.mpr ⟨e, he, hek⟩
+    · have h := (lookup_isSome_iff_mem_keys r k).mpr hk
+      rcases hv : r.lookup k with _ | v
+      · rw [hv] at h; simp at h
+      · have hy : (k, DiffElement.right v) ∈ symmetricDiff [] r :=
+          (symmetricDiff_mem [] r sorted_nil hr k _).mpr (.inr (.inl ⟨v, rfl, hv, rfl⟩))
+        obtain ⟨e, he, hek⟩ := stream_covers_right _ _ hla hra _ hy
+        exact List.mem_map.mpr ⟨e, he, hek⟩
+
+/-- on a fresh node the user function is called for every element of the stream -/
+theorem mergeStep_initial_calls (f : Int → MergeArg → Option Int) (l r : AMap Int) (hl : l.Sorted)
+    (hr : r.Sorted) :
+    (mergeStep f none l r).2.2 =
+      (mergeDiffs (symmetricDiff [] l) (symmetricDiff [] r)).map fun e => (Role.merge, e.key) := by
+  rw [mergeStep_alter f none sorted_nil sorted_nil l r hl hr]
+  show List.map _ (List.filter (hasData l r)
+    (mergeDiffs (symmetricDiff [] l) (symmetricDiff [] r))) = _
+  congr 1
+  rw [List.filter_eq_self]
+  intro e he
+  have hk : e.key ∈ l.keys ∨ e.key ∈ r.keys :=
+    (mergeInitial_stream_key l r hl hr e.key).mp (List.mem_map.mpr ⟨e, he, rfl⟩)
+  simp only [hasData, Bool.or_eq_true]
+  rcases hk with hk | hk
+  · exact .inl ((lookup_isSome_iff_mem_keys l _).mpr hk)
+  · exact .inr ((lookup_isSome_iff_mem_keys r _).mpr hk)
+
+/-! ## `did_change = false` only for equal inputs -/
+
+theorem getElem_of_map_eq {α β γ : Type} (f : α → γ) (g : β → γ) (l : List α) (l' : List β)
+    (h : l.map f = l'.map g) (n : Nat) (h1 : n < l.length) (h2 : n < l'.length) :
+    f l[n] = g l'[n] := by
+  have := congrArg (fun x => x[n]?) h
+  simpa [h1, h2] using this
+
+theorem ufoldStep_flag_false {ρ : Type} (u : UFold ρ) (init : ρ) (a m : AMap Int) (o : ρ)
+    (ha : a.Sorted) (hm : m.Sorted) (h : (ufoldStep u init (some (a, o)) m).2.1 = false) : a = m := by
+  by_cases hc : u.revertToInitWhenEmpty = false ∨ m ≠ []
+  · rw [ufoldStep_diff u init a o m hc] at h
+    simp only [Bool.not_eq_false', List.isEmpty_iff] at h
+    exact (symmetricDiff_nil_iff a m ha hm).mp h
+  · have h1 : u.revertToInitWhenEmpty = true := by
+      cases hr : u.revertToInitWhenEmpty
+      · exact absurd (.inl hr) hc
+      · rfl
+    have h2 : m = [] := by
+      by_cases hm' : m = []
+      · exact hm'
+      · exact absurd (.inr hm') hc
+    subst h2
+    rw [ufoldStep_revert u init a o h1] at h
+    simpa using h
+
+theorem mergeStep_flag_false (f : Int → MergeArg → Option Int) (oldL oldR o newL newR : AMap Int)
+    (hoL : oldL.Sorted) (hoR : oldR.Sorted) (hnL : newL.Sorted) (hnR : newR.Sorted)
+    (h : (mergeStep f (some (oldL, oldR, o)) newL newR).2.1 = false) : oldL = newL ∧ oldR = newR := by
+  rw [mergeStep_eq] at h
+  simp only [mergeOld, Option.getD_some, Bool.not_eq_false', List.isEmpty_iff] at h
+  have hla := symmetricDiff_ascending oldL newL hoL hnL
+  have hra := symmetricDiff_ascending oldR newR hoR hnR
+  constructor
+  · apply (symmetricDiff_nil_iff oldL newL hoL hnL).mp
+    apply List.eq_nil_iff_forall_not_mem.mpr
+    intro x hx
+    obtain ⟨e, he, -⟩ := stream_covers_left _ _ hla hra x hx
+    rw [h] at he; simp at he
+  · apply (symmetricDiff_nil_iff oldR newR hoR hnR).mp
+    apply List.eq_nil_iff_forall_not_mem.mpr
+    intro y hy
+    obtain ⟨e, he, -⟩ := stream_covers_right _ _ hla hra y hy
+    rw [h] at he; simp at he
+
+/-! ## the instances `incr_map`, `incr_mapi` -/
+
+theorem filterMapSpec_mapi (g : Int → Int → Int) (m : AMap Int) :
+    filterMapSpec (fun k v => some (g k v)) m = m.map fun kv => (kv.1, g kv.1 kv.2) := by
+  unfold filterMapSpec filterMapCollect
+  simp
+
 end IncrVerif.Proofs.Ops
